@@ -1128,7 +1128,8 @@ func (t *Tree) Compile(file string, args []string, out io.Writer) (err error) {
 			   come between the expression and the closing parenthesis */
 			code := strings.TrimSpace(n.String())
 			if strings.Contains(code, "//") {
-				code = "func() bool {\nreturn " + code + "\n}()"
+				/* (an assignment, not "return": the text may also begin with a comment) */
+				code = "func() bool {\nok := " + code + "\nreturn ok\n}()"
 			}
 			_print("\n   if !(%v) {", code)
 			printJump(ko)
